@@ -28,6 +28,9 @@ async def bind_mount_point(
     :param hardware: the `Hardware` object with eventual binds to resolve
     :return: a new normalized `Hardware` object with the eventual bind in the storages resolved
     """
+    if location.hardware is None:
+        # The inner location exposes no hardware information: no storage can be resolved
+        return Hardware(cores=hardware.cores, memory=hardware.memory)
     path_processor = get_path_processor(location.location)
     storages: dict[str, Storage] = {}
     for disk in hardware.storage.values():
